@@ -406,3 +406,49 @@ Proof.
     apply app_inj_tail in Hf. destruct Hf as [Hf _]. congruence.
   - apply escape_no_delim.
 Qed.
+
+(* ---------------- the reader's dispatch loop ---------------- *)
+Lemma reader_run_ok reg : forall chunks h acc racc,
+  u_err (run_unpack h chunks acc) = None ->
+  exists X, u_msgs (run_unpack h chunks acc) = acc ++ X /\
+            reader_run reg h chunks racc = (racc ++ map (dispatch1 reg) X, None).
+Proof.
+  induction chunks as [|c cs IH]; intros h acc racc He.
+  - exists []. cbn [run_unpack u_msgs reader_run map]. now rewrite !app_nil_r.
+  - cbn [run_unpack reader_run] in *.
+    destruct (u_err (unpack h c)) as [e|] eqn:E.
+    + cbn [u_err] in He. discriminate.
+    + destruct (IH (u_hist (unpack h c)) (acc ++ u_msgs (unpack h c))
+                   (racc ++ map (dispatch1 reg) (u_msgs (unpack h c))) He) as (X & HX & HR).
+      exists (u_msgs (unpack h c) ++ X). split.
+      * rewrite HX. now rewrite app_assoc.
+      * rewrite HR, map_app. now rewrite app_assoc.
+Qed.
+
+Theorem reader_events : forall reg fs chunks, Forall vframe fs -> concat chunks = concat fs ->
+  reader_run reg [] chunks [] = (map (dispatch1 reg) (map decode_ok fs), None).
+Proof.
+  intros reg fs chunks Hfs H.
+  pose proof (segmentation fs chunks Hfs H) as S.
+  destruct (reader_run_ok reg chunks [] [] []) as (X & HX & HR).
+  - now rewrite S.
+  - rewrite S in HX. cbn [u_msgs app] in HX. subst X. exact HR.
+Qed.
+
+(* promptness at the dispatch level: after any prefix of the reads exactly the frames whose closing
+   delimiter has been fed have been dispatched *)
+Theorem reader_events_prompt : forall reg fs chunks rest, Forall vframe fs ->
+  concat chunks ++ rest = concat fs ->
+  reader_run reg [] chunks [] =
+    (map (dispatch1 reg) (map decode_ok (frames_within fs (length (concat chunks)))), None).
+Proof.
+  intros reg fs chunks rest Hfs H.
+  pose proof (prompt fs chunks rest Hfs H) as S. cbv zeta in S.
+  destruct (reader_run_ok reg chunks [] [] []) as (X & HX & HR).
+  - now rewrite S.
+  - rewrite S in HX. cbn [u_msgs app] in HX. subst X. exact HR.
+Qed.
+
+(* an unsupported id never ends the loop: whatever stands before or after it is dispatched *)
+Lemma dispatch_all reg ms : length (map (dispatch1 reg) ms) = length ms.
+Proof. apply map_length. Qed.
